@@ -17,7 +17,7 @@ func init() {
 	register(&Property{
 		ID:        "C39",
 		Patterns:  []string{"./sql/planbuilder", "./sql/analyzer"},
-		Technique: "enum-dispatch exhaustiveness + arm classification over go/ast+go/types; constant pair table read from the parser's composite literals; type-driven coverage; CFG must-pass-through",
+		Technique: "enum-dispatch exhaustiveness + arm classification over go/ast+go/types; constant pair table read from the parser's composite literals; type-driven coverage; CFG must-pass-through; interprocedural may-share (map aliasing) analysis over go/ssa with function summaries for the privilege-set merge/copy family",
 		Explanation: "Privilege checks — dispatch and coverage clauses of defaultAuthorizationHandler.HandleAuth and its callers in package planbuilder. (A1) the switches over auth.AuthType and auth.TargetType " +
 			"have an arm for every AuthType_*/AuthTargetType_* constant of the pinned vitess parser and their default arms fail closed (return an error). (A2) every AuthType arm either sets a non-empty " +
 			"constant list of privilege types, or assigns hasPrivileges from an expression that reaches a privilege decision (UserHasPrivileges, RoutineAdminCheck, a node's CheckAuth, or a handler helper that " +
@@ -25,9 +25,18 @@ func init() {
 			"pass table {Ignore, TODO} passes privilegeTypes to UserHasPrivileges and conjoins the earlier hasPrivileges. (A4) the denial `if !hasPrivileges` follows both switches, and the only `return nil` " +
 			"inside them are the IGNORE arm and the information_schema exemptions. (A5) every AST struct of the parser that carries an AuthInformation is passed to HandleAuth somewhere in planbuilder, each " +
 			"such call sends a non-nil error to handleErr under b.authEnabled, and in its function no path reaches a normal return without passing a HandleAuth call. (A6) no AuthInformation literal of " +
-			"the parser pairs an AuthType whose arm only sets privilegeTypes with a TargetType whose arm does not consume them (the privilege list would never be consulted).",
+			"the parser pairs an AuthType whose arm only sets privilegeTypes with a TargetType whose arm does not consume them (the privilege list would never be consulted). " +
+			"Deep-copy discipline of the stored grants (sql/mysql_db, family = everything reachable from PrivilegeSet.UnionWith/Copy and UserCopy, analysed over go/ssa with per-function summaries): " +
+			"(D1) no merge function (UnionWith and the unionWith of the database/table/column/routine level; receiver = destination, argument = source) makes a map reachable from one operand " +
+			"reachable from the other operand's maps - every map or struct of maps it stores into the destination was allocated by the family (make / composite literal / a family function that returns " +
+			"fresh maps), never loaded from the source; a helper that stores its argument is judged by what its callers pass. (D2) PrivilegeSet.Copy and UserCopy return values that share no map with " +
+			"their operand (every map field of every level is fresh; a struct copy counts only for the fields that are overwritten on every path before the return). (D3) the destination of every " +
+			"PrivilegeSet.UnionWith call in the module is a set the calling function built itself (NewPrivilegeSet / Copy), never a stored one - UserActivePrivilegeSet merges roles into a copy. " +
+			"A violation lets a role merge or a grant-table edit write into another account's stored grants: privileges survive REVOKE / leak between roles.",
 		NotCovered: "the privilege-set lookup itself (UserHasPrivileges, role activation), GRANT/REVOKE histories, CheckAuth implementations of plan nodes, target names computed by the parser, " +
-			"integrator-supplied authorization handlers",
+			"integrator-supplied authorization handlers; for D1-D3: sharing of one fresh map between two entries of the same destination, callers that mutate a set obtained from the session cache " +
+			"through Add*/Remove*/Clear* (only UnionWith destinations are decided), maps stored by functions outside the family (calls outside the family with map-carrying operands make the rule undecided, " +
+			"which is a failure, inside the family and are assumed not to store their operands in the three UnionWith callers), nil maps",
 		Run: func(c *Ctx) {
 			runC39(c, c39Cfg{rel: "sql/planbuilder", handler: "defaultAuthorizationHandler.HandleAuth", astPkg: "github.com/dolthub/vitess/go/vt/sqlparser",
 				authPrefix: "AuthType_", targetPrefix: "AuthTargetType_", authInfo: "AuthInformation",
@@ -36,6 +45,11 @@ func init() {
 				deciders:   []string{"UserHasPrivileges", "RoutineAdminCheck", "CheckAuth", "authCheckDatabaseTableNames"},
 				errSink:    "handleErr", enabledField: "authEnabled", exemptDB: "information_schema",
 				floors: [7]int{50, 41, 7, 4, 100, 42, 2}})
+			runC39Copy(c, c39CopyCfg{rel: "sql/mysql_db",
+				merges:    []string{"PrivilegeSet.UnionWith", "PrivilegeSetDatabase.unionWith", "PrivilegeSetTable.unionWith", "PrivilegeSetColumn.unionWith", "PrivilegeSetRoutine.unionWith"},
+				copies:    []string{"PrivilegeSet.Copy", "UserCopy"},
+				unionInto: "PrivilegeSet.UnionWith",
+				floors:    [3]int{5, 2, 2}})
 		},
 		Fixture: func(c *Ctx, fx *Prog) {
 			expectFixture(c, fx, "c39: missing arm, emptied arm, permissive default, target arm that ignores the privilege list, early return nil, uncovered AST node, dropped error, unconsulted pair",
@@ -58,8 +72,25 @@ func init() {
 						passTarget: map[string]string{"AuthTargetType_Ignore": "decided"},
 						deciders:   []string{"UserHasPrivileges"}, errSink: "handleErr", enabledField: "authEnabled", exemptDB: "information_schema"})
 				})
+			expectFixture(c, fx, "c39-D: merge that stores the source's table set, helper given the source's set, half clone, shallow copy, copy shortcut, struct copy keeping the set, merge into a stored set",
+				[]string{
+					"C39-D1:Set.MergeFast/s.tables<-o",
+					"C39-D1:Set.MergeViaHelperBad/s<-o via Set.put:s.tables",
+					"C39-D1:Set.MergeHalfClone/s.tables<-o",
+					"C39-D1:Set.AdoptCloneShallow/s.tables<-o",
+					"C39-D2:Set.CopyShallow/result shares s",
+					"C39-D2:Set.CopyEmptyShortcut/result shares s",
+					"C39-D2:UserCopyBad/result shares u",
+					"C39-D3:testdata/c39/privset.ActiveBad/UnionWith",
+				},
+				func(fc *Ctx) {
+					runC39Copy(fc, c39CopyCfg{rel: "testdata/c39/privset",
+						merges:    []string{"Set.UnionWith", "Tbl.unionWith", "Set.MergeFast", "Set.MergeViaHelper", "Set.MergeViaHelperBad", "Set.MergeHalfClone", "Set.MergeCloneStd", "Set.AdoptCloneShallow"},
+						copies:    []string{"Set.Copy", "Set.CopyOverwrite", "Set.CopyShallow", "Set.CopyEmptyShortcut", "UserCopy", "UserCopyBad"},
+						unionInto: "Set.UnionWith"})
+				})
 		},
-		FixturePkgs: []string{"./testdata/c39/build", "./testdata/c39/ast"},
+		FixturePkgs: []string{"./testdata/c39/build", "./testdata/c39/ast", "./testdata/c39/privset"},
 	})
 }
 
